@@ -26,19 +26,19 @@ CLAIMED = {
  'C11': dict(
    technique='runtime monitoring over an exhaustively enumerated finite matrix: reference gating table + twin for the as-if-not-made clause + autoref-specialisation probe for the compile-time table',
    level='exploration',
-   text='All ~27 k cells {Client, Server, Any-as-client, Any-as-server} x {v3.1.1, v5.0, undetermined} x {disconnected, connecting, connected} x 31 send cells x persistent x offline x id width, each through send(), checked_send(concrete type) and checked_send(GenericPacket), and again on a primed session (handled inbound QoS 2 id, unacknowledged inbound QoS 1, stored PUBLISH and PUBREL, QoS 2 exchange awaiting its PUBREL) with acks that answer those exchanges, with v5 acks carrying a failure reason code, and with a second PUBLISH/PUBREL on an id that already carries a stored exchange: outcome must equal the gating table of DESIGN Appendix A; a refused call may only return errors plus the release of its own id and must leave the object indistinguishable (digest and a fixed continuation trace) from a twin that never made the call; `T: Sendable<Role, Id>` observed for all 29 types x 3 roles x 2 id types must equal the role table. Exhaustive.',
+   text='All ~27 k cells {Client, Server, Any-as-client, Any-as-server} x {v3.1.1, v5.0, undetermined} x {disconnected, connecting, connected} x 31 send cells x persistent x offline x id width, each through send(), checked_send(concrete type) and checked_send(GenericPacket), and again on a primed session (handled inbound QoS 2 id, unacknowledged inbound QoS 1, stored PUBLISH and PUBREL, QoS 2 exchange awaiting its PUBREL) with acks that answer those exchanges, with v5 acks carrying a failure reason code, with a second PUBLISH/PUBREL on an id that already carries a stored exchange, and with a last CONNACK whose Session Expiry Interval (0 / 50) overrides what the CONNECT asked for: outcome must equal the gating table of DESIGN Appendix A; a refused call may only return errors plus the release of its own id and must leave the object indistinguishable (digest and a fixed continuation trace) from a twin that never made the call; `T: Sendable<Role, Id>` observed for all 29 types x 3 roles x 2 id types must equal the role table. Exhaustive.',
    note='Trusted: DESIGN Appendix A as the reading of "who may send what when"; queue-able cells may be queued or refused.',
    design='DESIGN.md §4 C11, Appendix A'),
  'C16': dict(
    technique='runtime monitoring: crash-point fault injection + differential twins (uncrashed original vs fresh object + export) + the C06/C07/C08/C12 monitors continuing on the restored object',
    level='fault_enumeration',
-   text='120 k (quick) / 6 M (thorough) histories under persistent sessions are cut at a random crash point; the export (get_stored_packets, get_qos2_publish_handled) goes into a fresh object; both reconnect with session present and receive the same peer continuation (ack for every exported packet, duplicate/PUBREL/new message for every handled id): retransmission lists and continuation traces must be equal, exported ids must be unregisterable, and the store/id/flow/QoS2 monitors (initialised from the export) must stay silent on the restored object incl. 12 further random operations. Malformed exports (duplicate ids, wrong-version and QoS 0 entries) must be skipped without panic and leave a consistent store.',
+   text='120 k (quick) / 6 M (thorough) histories under persistent sessions are cut at a random crash point; the export (get_stored_packets, get_qos2_publish_handled) goes into a fresh object - before the handshake, or (one case in three) between CONNECT and CONNACK; both reconnect with session present and receive the same peer continuation (ack for every exported packet, duplicate/PUBREL/new message for every handled id): retransmission lists and continuation traces must be equal, exported ids must be unregisterable, and the store/id/flow/QoS2 monitors (initialised from the export) must stay silent on the restored object incl. 12 further random operations. Malformed exports (duplicate ids, wrong-version and QoS 0 entries) must be skipped without panic and leave a consistent store.',
    note='Trusted: as C06-C08/C12; application-held ids die with the process; an exchange between PUBREC and the application\'s PUBREL is not part of the export.',
    design='DESIGN.md §4 C16'),
  'C17': dict(
    technique='runtime monitoring over an exhaustively enumerated finite matrix (receive gating) + differential twins (Undetermined vs fixed-version server)',
    level='exploration',
-   text='All 1536 cells role path x version x status x 16 type nibbles x {minimal valid body, empty body} x id width on a primed persistent session: kinds the remote side may never send must yield an error, no delivery, no response and an unchanged session (public view and digest); CONNECT/CONNACK on an established connection likewise, swept over the contents of the second handshake packet (every CONNACK reason/return code x session present x limit-renegotiating properties; CONNECT clean start x keep alive x client id x properties; ~900 cells). Undetermined server: CONNECT levels 3/4/5/6 and eight other first packets. 300 k (quick) / 10 M (thorough) seeded driver histories run against an Undetermined server and a fixed-version server must give identical call-by-call traces.',
+   text='All 1536 cells role path x version x status x 16 type nibbles x {minimal valid body, empty body} x id width on a primed persistent session: kinds the remote side may never send must yield an error, no delivery, no response and an unchanged session (public view and digest); CONNECT/CONNACK on an established connection likewise, swept over the contents of the second handshake packet (every CONNACK reason/return code x session present x limit-renegotiating properties; CONNECT clean start x keep alive x client id x properties; ~900 cells). Undetermined server: all 256 values of the CONNECT protocol-level byte in both body layouts, and the 15 other packet types as first packet in the minimal form of both versions. 300 k (quick) / 10 M (thorough) seeded driver histories run against an Undetermined server and a fixed-version server must give identical call-by-call traces.',
    note='Trusted: DESIGN Appendix B.',
    design='DESIGN.md §4 C17, Appendix B'),
  'C05': dict(
@@ -68,7 +68,7 @@ CLAIMED = {
  'C12': dict(
    technique='runtime monitoring: online reference-model monitor over call records of seeded random histories (generic driver, hostile peer, small alphabets), every call under catch_unwind in the overflow-checks build (+ second build with overflow checks off)',
    level='exploration',
-   text='Outstanding-set model keyed by id: vacancy == max(0, M - |outstanding|) after every call on an established v5 connection and on a server between CONNECT and CONNACK, where publishes queued for the flush already count (F1), a QoS>0 PUBLISH is accepted iff below the limit (F2), inbound excess is not delivered (F3); M in {1,2,3,65535}, resumes with stored packets, erasures, refusals, error acks.',
+   text='Outstanding-set model keyed by id: vacancy == max(0, M - |outstanding|) after every call on an established v5 connection and on a server between CONNECT and CONNACK, where publishes queued for the flush already count (F1), a QoS>0 PUBLISH is accepted iff below the limit (F2), inbound excess is not delivered, and a retransmission answered with PUBREC as a duplicate counts as an inbound exchange of this connection and is itself subject to the limit (F3); M in {1,2,3,65535}, resumes with stored packets, erasures, refusals, error acks.',
    note='Trusted: the reference model of DESIGN Appendix F (written from the property statements, updated only from calls, returned events and public probes) and the application contract of DESIGN §3.3. The hook digest is only used to read the in-use id set faster; the same clause is re-checked black-box by register()/release() probing on a sample of calls.',
    design='DESIGN.md §4 + Appendix F'),
  'C13': dict(
@@ -80,13 +80,13 @@ CLAIMED = {
  'C14': dict(
    technique='runtime monitoring: online reference-model monitor over call records of seeded random histories (generic driver, hostile peer, small alphabets), every call under catch_unwind in the overflow-checks build',
    level='exploration',
-   text="size() of every packet in every RequestSendPacket (direct, automatic responses, retransmissions, alias-rewritten) against the limit captured from the peer's CONNECT/CONNACK (Z1), oversize stored packets dropped and released on resume (Z2), oversize inbound not delivered and answered with DISCONNECT 0x95 (Z3); limits drawn from 1..40 so that they straddle actual packet sizes constantly.",
+   text="size() of every packet in every RequestSendPacket (direct, automatic responses, retransmissions, alias-rewritten) against the limit captured from the peer's CONNECT/CONNACK (Z1), oversize stored packets dropped and released on resume (Z2), oversize inbound not delivered and answered with DISCONNECT 0x95 (Z3); limits drawn from 1..40 and 127..140 so that they straddle actual packet sizes constantly. Directed workloads: the limit at size-1/size/size+1 of the very packet for every send path, and PUBLISHes whose size / property section sits just below the points where Remaining Length (127/128, 16383/16384) or Property Length needs one more byte, limits plain+0..6, with automatic alias mapping (the rewritten packet grows by more than the three bytes of the alias).",
    note='Trusted: the reference model of DESIGN Appendix F (written from the property statements, updated only from calls, returned events and public probes) and the application contract of DESIGN §3.3. The hook digest is only used to read the in-use id set faster; the same clause is re-checked black-box by register()/release() probing on a sample of calls.',
    design='DESIGN.md §4 + Appendix F'),
  'C15': dict(
    technique='runtime monitoring: online reference-model monitor over call records of seeded random histories (generic driver, hostile peer, small alphabets), every call under catch_unwind in the overflow-checks build',
    level='exploration',
-   text='Armed-set model driven by Reset/Cancel/fire: cancel only when armed (T1), nothing armed after close or DISCONNECT (T2), no local call arms a timer while disconnected (T3), client re-arms PINGREQ with the priority interval after every send incl. retransmission (T4), server re-arms 1.5 x keep-alive on every accepted packet and never for 0 (T5), PINGREQ arms / PINGRESP cancels the response timer (T6), each expiry has its specified effect (T7).',
+   text='Armed-set model driven by Reset/Cancel/fire: cancel only when armed (T1), nothing armed after close or DISCONNECT (T2), no local call arms a timer while disconnected (T3), client re-arms PINGREQ with the priority interval after every send incl. retransmission (T4), server re-arms 1.5 x keep-alive on every accepted packet and never for 0 (T5), PINGREQ arms / PINGRESP cancels the response timer (T6), each expiry has its specified effect (T7), a connection opened as a client never arms the PINGREQ receive timer - an Any-role object changes sides between its connections (T8).',
    note='Trusted: the reference model of DESIGN Appendix F (written from the property statements, updated only from calls, returned events and public probes) and the application contract of DESIGN §3.3. The hook digest is only used to read the in-use id set faster; the same clause is re-checked black-box by register()/release() probing on a sample of calls.',
    design='DESIGN.md §4 + Appendix F'),
  'C19': dict(
@@ -116,14 +116,14 @@ CLAIMED = {
  'C18': dict(
    technique='runtime monitoring over an exhaustively enumerated finite table: reference acceptance table (MQTT 5.0 Table 2-4) vs builder path and parser path',
    level='exploration',
-   text='All 1484 cells (27 property ids x 14 locations incl. will x count {1,2} x value classes incl. every forbidden value) are placed into a minimal valid carrier packet and run through the public builders and, reference-encoded, through the parsers; acceptance must equal the specification table on both paths. Exhaustive over the table. In addition every ordered pair of distinct property ids x 14 locations in the list shapes [A,B] [B,A] [A,B,B] [B,A,B] [B,B,A] (~5.8 k cells: the verdict on a property must not depend on its neighbour) and 20 k (quick) / 2 M (thorough) seeded random property lists of up to 6 entries.',
+   text='All 1484 cells (27 property ids x 14 locations incl. will x count {1,2} x value classes incl. every forbidden value) are placed into a minimal valid carrier packet and run through the public builders and, reference-encoded, through the parsers; acceptance must equal the specification table on both paths. Exhaustive over the table. Every cell is placed in two carriers: the minimal packet and one that differs in everything around the property list (failure reason codes, QoS 2/RETAIN/DUP, kept session with credentials, several entries). In addition every ordered pair of distinct property ids x 14 locations in the list shapes [A,B] [B,A] [A,B,B] [B,A,B] [B,B,A] (~5.8 k cells: the verdict on a property must not depend on its neighbour) and 20 k (quick) / 2 M (thorough) seeded random property lists of up to 6 entries.',
    note='Trusted: my transcription of Table 2-4 (DESIGN Appendix C). Builder cells whose value no public constructor can express are counted as inexpressible.',
    design='DESIGN.md §4 C18'),
  'C20': dict(
    technique='runtime monitoring: differential oracle (BTreeSet set model) + representation-invariant hook over exhaustive short operation sequences and long random sequences; every call under catch_unwind with overflow checks on',
    level='exploration',
    text='Every operation sequence up to depth 6-7 (quick) / 7-8 (thorough) over ranges of width 1-4 at 0, 1, mid-range and the type maximum of u8/u16/u32 is executed against the real ValueAllocator and compared, answer by answer, with a set model; after every operation is_used (in and out of range), first_vacant, interval_count and the hook interval list are compared with the model (sorted, disjoint, maximally merged). Plus thousands of 1000-op random sequences over full u16/u32 ranges, PacketIdManager and TopicAliasSend sequences, and full u16 exhaustion. Exhaustive within the stated bounds, sampling beyond them.',
-   note='Trusted: the BTreeSet model as specification; deallocate only called with in-range values. Hook verif_intervals is a plain copy of the pool.',
+   note='Trusted: the BTreeSet model as specification; deallocate of an out-of-range value may be refused by the range assertion or ignored, but must free nothing (A10). Hook verif_intervals is a plain copy of the pool.',
    design='DESIGN.md §4 C20'),
 }
 
